@@ -47,6 +47,10 @@ def model_lines(case, cwd):
     lines, ufs = [], []
     for r in case["roots"]:
         t, uf = fstree.unfold(os.path.join(cwd, r), mode, xdev=bool(case.get("xdev")))
+        # the same unfolding by the Coq function, from the bare graph of directory identities
+        rent, g, nids = fstree.graph_of(os.path.join(cwd, r), mode)
+        uf.graph_line = "unfoldg %d %d %d %s %s" % (int(mode == "L"), int(bool(case.get("xdev"))), nids + 1, rent, g)
+        uf.shape = fstree.shape(t)
         # report paths as find prints them: relative to cwd, as spelled
         for n in uf.nodes.values():
             if "path" in n:
@@ -131,11 +135,20 @@ def run_cases(ctx, forest, cases, bucket_fn):
         ufs_all.append(ufs)
         if lines:
             ml += lines
+    gl = [uf.graph_line for ufs in ufs_all if ufs for uf in ufs]
     impl = xc.run_impl(il)
-    mout = fw.run_lines(fw.FUVM, ml)
+    mout = fw.run_lines(fw.FUVM, ml + gl)
+    gout = iter(mout[len(ml):])
     bad = []
     for c, i, (st, n), ufs in zip(cases, impl, idx, ufs_all):
         if ufs is None:
+            continue
+        # WalkGraph.unfold (proved total and cycle-free) and the reference unfolding must make the same tree
+        shapes = [(next(gout), uf.shape) for uf in ufs]
+        if any(a != b for a, b in shapes):
+            ctx.count((c["treekey"], "unfolding", tuple(find_args(c))), True, ["unfolding-disagrees"])
+            bad.append((c, ("WalkGraph.unfold", "\0".join(a for a, _ in shapes).encode() + b"\0", b"the unfolding of the Coq model and the reference unfolding disagree"),
+                        ("fstree.unfold", "\0".join(b for _, b in shapes).encode() + b"\0", 0)))
             continue
         exp_out, exp_err, events = expected_from_model(mout[st:st + n], ufs)
         code, out, err = decode_find(i)
